@@ -68,6 +68,10 @@ def _needs_quote(name: str) -> bool:
 	return False
 
 
+# Marker for the elided middle rows of a preview (an object, so that no cell value can be mistaken for it)
+_ELLIPSIS = object()
+
+
 def _format_column(col, max_preview: int | None = None) -> List[str]:
 	"""Returns a list of strings representing that column, truncated for display."""
 	# Use global default if not specified
@@ -79,14 +83,16 @@ def _format_column(col, max_preview: int | None = None) -> List[str]:
 	# Truncate with symmetric preview
 	vals = col._underlying
 	if len(vals) > max_preview * 2:
-		preview = list(vals[:max_preview]) + ['...'] + list(vals[-max_preview:])
+		preview = list(vals[:max_preview]) + [_ELLIPSIS] + list(vals[-max_preview:])
 	else:
 		preview = list(vals)
 
 	# Type-sensitive formatting
 	out = []
 	for v in preview:
-		if v == '...':
+		if v is _ELLIPSIS:
+			# the marker is recognised by identity: a cell is never compared (== on a
+			# nested Vector gives a Vector, whose truth value raises)
 			out.append('...')
 		elif v is None:
 			out.append('None')
